@@ -34,6 +34,8 @@ class C14(Prop):
     ]
 
     def generate(self, rng, tier, n):
+        if tier == "quick":
+            yield from cases.small_sample(rng, 250)      # a slice of the exhaustive small scope
         for _ in range(n):
             yield cases.gen_case(rng, focus="timeout")
 
